@@ -749,7 +749,11 @@ class Gen:
             if k == "int":
                 name = self.fresh("var")
                 env.ints.append(name)
-                out.append((self.arith_type(), [Lx(name, "id", ("decl-name",))]))
+                q = ""
+                if d.bool(0.06):
+                    q = d.choice(["volatile ", "register "])
+                    self.tag("decl:qualified")
+                out.append((q + self.arith_type(), [Lx(name, "id", ("decl-name",))]))
             elif k == "ptr":
                 name = self.fresh("var")
                 env.ptrs.append(name)
@@ -901,6 +905,9 @@ class Gen:
                 ty, mem = self.struct_type()
                 env.sptrs.append((name, mem))
                 out += self.type_lex(ty) + [SP(), Lx("*", "op", ("ptr-param",)), Lx(name, "id", ("param-name",))]
+        if d.bool(0.06):
+            out += [Lx(",", "comma"), SP(), Lx("...", "op", ("ellipsis",))]     # the Norm limits *named* parameters
+            self.tag("param:variadic")
         return out
 
     # -- functions -------------------------------------------------------------------------------
@@ -1015,6 +1022,52 @@ class Gen:
             self.macros.append(name)
         self.emit(lex, "define", 0, -1, info={"ppdepth": indent, "value": k})
         self.tag("define:" + k)
+
+    def pp(self, ind, word, rest=(), kind=None):
+        self.emit([Lx("#", "hash")] + [SP()] * ind + [Lx(word, "pp")] + ([SP()] + list(rest) if rest else []), kind or word, 0, -1, info={"ppdepth": ind})
+
+    def cond_block(self, ind):
+        """#ifdef / #if … [#elif …] [#else …] #endif around defines (and #undef), or a lone #undef / #pragma"""
+        d = self.d
+        k = d.weighted([(3, "ifdef-else"), (3, "if-elif"), (2, "redefine"), (1, "undef"), (1, "pragma")])
+        self.tag("cond-block:" + k)
+        m = self.fresh("macro", upper=True, lo=3, hi=10)
+        name = self.fresh("macro", upper=True, lo=2, hi=10)
+
+        def define(val):
+            self.pp(ind + 1, "define", [Lx(name, "id", ("macro-def",)), SP(), Lx(str(val), "num", ("const:dec",))], "define")
+        if k == "ifdef-else":
+            self.pp(ind, d.choice(["ifdef", "ifndef"]), [Lx(m, "id", ("macro",))], "ifndef")
+            define(d.int(0, 99))
+            self.pp(ind, "else", kind="ppelse")
+            define(d.int(0, 99))
+            self.pp(ind, "endif")
+            self.macros.append(name)
+        elif k == "if-elif":
+            m2 = self.fresh("macro", upper=True, lo=3, hi=10)
+            c1 = d.choice([[Lx("defined", "kw"), Lx("(", "par"), Lx(m, "id", ("macro",)), Lx(")", "par")],
+                           [Lx("defined", "kw"), Lx("(", "par"), Lx(m, "id", ("macro",)), Lx(")", "par"), SP(), Lx("&&", "op", ("binop", "binop:&&")), SP(),
+                            Lx(m, "id", ("macro",)), SP(), Lx(">", "op", ("binop", "binop:>")), SP(), Lx(str(d.int(0, 9)), "num", ("const:dec",))],
+                           [Lx(m, "id", ("macro",)), SP(), Lx(d.choice(["==", ">=", "<"]), "op", ("binop",)), SP(), Lx(str(d.int(0, 99)), "num", ("const:dec",))]])
+            self.pp(ind, "if", c1, "ifndef")
+            define(d.int(0, 99))
+            if d.bool(0.6):
+                self.pp(ind, "elif", [Lx("!", "un"), Lx("defined", "kw"), Lx("(", "par"), Lx(m2, "id", ("macro",)), Lx(")", "par")], "ppelse")
+                define(d.int(0, 99))
+            if d.bool(0.5):
+                self.pp(ind, "else", kind="ppelse")
+                define(d.int(0, 99))
+            self.pp(ind, "endif")
+            self.macros.append(name)
+        elif k == "redefine":
+            self.pp(ind, "ifdef", [Lx(m, "id", ("macro",))], "ifndef")
+            self.pp(ind + 1, "undef", [Lx(m, "id", ("macro",))], "undef")
+            self.pp(ind + 1, "define", [Lx(m, "id", ("macro-def",)), SP(), Lx(str(d.int(0, 99)), "num", ("const:dec",))], "define")
+            self.pp(ind, "endif")
+        elif k == "undef":
+            self.pp(ind, "undef", [Lx(m, "id", ("macro",))], "undef")
+        else:
+            self.pp(ind, "pragma", [Lx("once", "id")], "pragma")
 
     def comment_lines(self):
         """a file-level comment on its own line(s)"""
@@ -1153,6 +1206,9 @@ def gen_c(d, opts=None, name=None):
             g.define_line()
         g.blank()
         g.tag("section:define")
+    if d.bool(0.12) or "cond-block" in opts.get("force", ()):
+        g.cond_block(0)
+        g.blank()
     if d.bool(0.3):
         g.comment_lines()
         if d.bool():
@@ -1236,6 +1292,9 @@ def gen_h(d, opts=None, name=None, guard=True):
         g.emit([Lx("#", "hash")] + [SP()] * ind + [Lx("endif", "pp")], "endif", 0, -1, info={"ppdepth": ind})
         g.blank()
         g.tag("section:ifdef-else-include")
+    if d.bool(0.12) or "cond-block" in opts.get("force", ()):
+        g.cond_block(ind)
+        g.blank()
     # items: all names of the file's global scope share one column
     items = []
     nitems = d.int(1, 4)
@@ -1376,6 +1435,24 @@ def _enum_block(g, k):
         g.tdefs.append(tname)
     names = [g.fresh("macro", upper=True, lo=2, hi=8) for _ in range(d.int(1, 4))]
     vals = [d.bool(0.3) for _ in names]
+    vexpr = []
+    for i, n in enumerate(names):
+        kk = d.weighted([(5, "num"), (1, "shift"), (1, "neg"), (1, "chr"), (1, "prev"), (1, "paren")])
+        num = Lx(str(i * 2), "num", ("const:dec",))
+        if kk == "shift":
+            vexpr.append([Lx("1", "num", ("const:dec",)), SP(), Lx("<<", "op", ("binop", "binop:<<")), SP(), Lx(str(i), "num", ("const:dec",))])
+        elif kk == "neg":
+            vexpr.append([Lx("-", "un", ("unary:-",)), Lx(str(i + 1), "num", ("const:dec",))])
+        elif kk == "chr":
+            vexpr.append(g.char_const())
+        elif kk == "prev" and i:
+            vexpr.append([Lx(names[i - 1], "id", ("macro",)), SP(), Lx("+", "op", ("binop", "binop:+")), SP(), Lx("1", "num", ("const:dec",))])
+        elif kk == "paren":
+            vexpr.append([Lx("(", "par"), num, Lx(")", "par")])
+        else:
+            vexpr.append([num])
+        if vals[i] and kk != "num":
+            g.tag("enum-value:" + kk)
 
     def emit(col):
         head = ([Lx("typedef", "kw"), SP()] if tname else []) + [Lx("enum", "kw"), SP(), Lx(tag, "id", ("tag-name",))]
@@ -1384,7 +1461,7 @@ def _enum_block(g, k):
         for i, (n, v) in enumerate(zip(names, vals)):
             lex = TABS(1) + [Lx(n, "id", ("enumerator",))]
             if v:
-                lex += [SP(), Lx("=", "op", ("asgop", "init")), SP(), Lx(str(i * 2), "num", ("const:dec",))]
+                lex += [SP(), Lx("=", "op", ("asgop", "init")), SP()] + vexpr[i]
             if i < len(names) - 1:
                 lex.append(Lx(",", "comma"))
             g.emit(lex, "enumerator", 1, -1)
